@@ -34,7 +34,7 @@ MUTANTS = [
     # ---------------------------------------------------------------- C05
     ("m05_drop_priority_on_writeback", "C05", H, '    return f"{spaces}{symbol} {priority}"\n', '    return f"{spaces}{symbol} "\n'),
     ("m05_keep_long_date_in_index_body", "C05", R, "            if zdt.is_long_date_spec(words[0]):\n", "            if False and zdt.is_long_date_spec(words[0]):\n"),
-    ("m05_index_body_collapses_spaces", "C05", R, '            words = first_line.split(" ")\n', "            words = first_line.split()\n"),
+    ("m05_index_body_collapses_spaces", "C05", R, '            words = first_line.removesuffix(eol).split(" ")\n', "            words = first_line.removesuffix(eol).split()\n"),
     ("m05_writeback_normalises_crlf", "C05", H, "    zlines = c.read_text_as_is(zo_path).split(\"\\n\")\n", "    zlines = zo_path.read_text().split(\"\\n\")\n"),
     ("m05_zid_after_first_word", "C05", H, "    if not words:\n        return f\"{line_before_zid}{zid}\"\n    return f\"{line_before_zid}{zid} {' '.join(words)}\"\n", "    if not words:\n        return f\"{line_before_zid}{zid}\"\n    return f\"{line_before_zid}{words[0]} {zid} {' '.join(words[1:])}\".rstrip()\n"),
     ("m05_writeback_uses_stale_line_numbers", "C05", H, "        start_idx = note.line_no - 1\n        end_idx = note.line_no + len(note.body.split(\"\\n\")) - 1\n", "        start_idx = note.line_no - 1 + (1 if len(notes_to_update) > 2 and note is notes_to_update[-1] else 0)\n        end_idx = start_idx + len(note.body.split(\"\\n\"))\n"),
@@ -68,12 +68,15 @@ MUTANTS = [
     ("m11_stamp_with_create_date", "C11", H, "        get_thing=lambda _: today_short_date,\n", "        get_thing=lambda n: zdt.to_short_date_spec(n.create_date),\n"),
     ("m11_old_stamp_not_removed", "C11", H, "        old_modify_date = words.pop(0)\n", "        old_modify_date = words[0]\n"),
     ("m11_stamp_needs_old_stamp_state", "C11", H, "            if zdt.is_short_date_spec(first_word) and rest_of_body.lstrip(\n                \" \"\n            ).startswith(note.zid):\n", "            if old_note is not None and old_note.modify_date != note.create_date:\n"),
+    ("m11_three_clock_reads", "C11", H, "            modify_short_date = zdt.to_short_date_spec(today)\n", "            modify_short_date = zdt.to_short_date_spec(dt.date.today())\n"),
     # ---------------------------------------------------------------- C13
     ("m13_page_rewrite_in_place", "C13", H, '    c.atomic_write_text(zo_path, "\\n".join(zlines))\n', '    zo_path.write_text("\\n".join(zlines))\n'),
     ("m13_hash_map_keeps_pending_pages", "C13", H, "    for zorg_page_name in pages_to_write_back:\n        file_to_hash.pop(zorg_page_name, None)\n", ""),
     ("m13_next_ids_in_place", "C13", Z, "        atomic_write_text(\n            self._next_ids_path, json.dumps(dict(next_id_map), indent=4)\n        )\n", "        with self._next_ids_path.open(\"w\") as f:\n            json.dump(dict(next_id_map), f, indent=4)\n"),
     ("m13_first_writeback_records_hash", "C13", H, "        should_record_hash=not event.has_new_notes,\n", "        should_record_hash=True,\n"),
     ("m13_hash_map_written_before_page_commit", "C13", H, "            session.repo.add_file(zorg_page)\n            session.commit()\n            if zorg_page.events:\n", "            session.repo.add_file(zorg_page)\n            _write_file_hash_to_disk(file_hash_path, old_file_to_hash | {zorg_page_name: hash_})\n            session.commit()\n            if zorg_page.events:\n"),
+    ("m13_piecemeal_commits_in_remove", "C13", R, "        self._session.flush()\n        self._session.expire_all()\n", "        self._session.commit()\n"),
+    ("m13_hashes_of_changed_files_not_forgotten", "C13", H, "    if changed_files & old_file_to_hash.keys():\n", "    if False and changed_files & old_file_to_hash.keys():\n"),
     # ---------------------------------------------------------------- C14
     ("m14_anchor_links_not_retargeted", "C14", RF, '        f"[[{src_link_name}#": f"[[{dest_link_name}#",\n', ""),
     ("m14_prefix_replace", "C14", RF, '        f"[[{src_link_name}]": f"[[{dest_link_name}]",\n', '        f"[[{src_link_name}": f"[[{dest_link_name}",\n'),
